@@ -117,6 +117,16 @@ def layout_items(uexprs):
                     "static_assert({X}{j}().in(U{{}}) == R{j}{{}}, \"value-initialisation {X}<U,{r}>() yields {r}{{}}\");\n"
                     "static_assert(dflt_local<{X}{j}>() == R{j}{{}} && dflt_member<{X}{j}>() == R{j}{{}} && dflt_array<{X}{j}>() == R{j}{{}}, \"default-INITIALISED {X}<U,{r}> (local, member, array element) holds {r}{{}}\");"
                     .format(X=X, j=j, r=r))
+        # the round trip performs NO arithmetic on the value: clang's constant evaluator refuses any
+        # operation that produces a NaN, so a NaN handed through `.in(unit)` inside a constant
+        # expression is accepted exactly when the value is only copied (x * 1 would quiet a
+        # signalling NaN in an unoptimised build, x + 0 loses the sign of zero)
+        for j, r in enumerate(REPS11):
+            if r in ("float", "double", "long double"):
+                lines.append("constexpr R{j} nan{j} = std::numeric_limits<R{j}>::quiet_NaN(); constexpr R{j} ninf{j} = -std::numeric_limits<R{j}>::infinity();\n"
+                             "constexpr R{j} qn{j} = au::make_quantity<U>(nan{j}).in(U{{}}); constexpr R{j} pn{j} = au::make_quantity_point<U>(nan{j}).in(U{{}});\n"
+                             "static_assert(qn{j} != qn{j} && pn{j} != pn{j}, \"a NaN round-trips through Quantity / QuantityPoint {r} in a constant expression\");\n"
+                             "static_assert(au::make_quantity<U>(ninf{j}).in(U{{}}) == ninf{j} && au::make_quantity_point<U>(ninf{j}).in(U{{}}) == ninf{j}, \"-inf round-trips\");".format(j=j, r=r))
         items.append(witness.Item("layout:%s" % ue, "\n".join(lines), "accept", None,
                                   dict(desc="layout facts of Quantity / QuantityPoint of %s for 11 reps" % ue)))
     return items
